@@ -17,6 +17,8 @@ only_seeded = "--seeded-only" in sys.argv
 jobs = []
 for meta in sorted(glob.glob("/verif/seeded/*/meta.json")):
     m = json.load(open(meta))
+    if m.get("obsolete"):
+        continue
     jobs.append((m["id"], m["property"], os.path.join(os.path.dirname(meta), "patch.diff"), "seeded"))
 if not only_seeded:
     for p in sorted(glob.glob("/verif/mutants/*/*.patch")):
